@@ -31,7 +31,9 @@
 (*            shipped (= cmd/application/app_config.toml as it is)         *)
 (* The lists are sets of named entries (tables below); "ws" lists contain  *)
 (* an entry with a surrounding blank (the shipped file has "fc00::/7 "),   *)
-(* "bad" lists a valid entry plus one that cannot be parsed.  sf is the    *)
+(* "bad" lists a valid entry plus one that cannot be parsed ("badfirst":   *)
+(* the same two entries with the unparsable one written FIRST - which      *)
+(* entry of a list is the bad one must not matter).  sf is the    *)
 (* state of the phantom subnets file: S1 | S2 | malformed | missing |      *)
 (* badgen.                                                                 *)
 (*                                                                         *)
@@ -76,14 +78,14 @@ Modules == {"zmq", "liveness", "proxy", "reg", "stats", "sweep"}
 
 \* ------------------------------------------------------------------ entry tables
 CbsEntries(v) == CASE v = "A" -> {"c198", "cdb8b"} [] v = "B" -> {"c100"} [] v = "ws" -> {"c198", "cws"}
-                   [] v = "bad" -> {"c198", "cBAD"}
+                   [] v \in {"bad", "badfirst"} -> {"c198", "cBAD"}
                    [] v = "shipped" -> {"s127", "s10", "s172", "s192", "sfc00ws", "sfe80", "sv6lo"}
                    [] OTHER -> {}
-CasEntries(v) == CASE v = "A" -> {"a203", "adb8a"} [] v = "ws" -> {"aws"} [] v = "bad" -> {"a203", "aBAD"}
+CasEntries(v) == CASE v = "A" -> {"a203", "adb8a"} [] v = "ws" -> {"aws"} [] v \in {"bad", "badfirst"} -> {"a203", "aBAD"}
                    [] v = "badonly" -> {"aBAD"} [] OTHER -> {}
-CbdEntries(v) == CASE v = "A" -> {"dblk", "dloc"} [] v = "B" -> {"doth"} [] v = "bad" -> {"dblk", "dBAD"}
+CbdEntries(v) == CASE v = "A" -> {"dblk", "dloc"} [] v = "B" -> {"doth"} [] v \in {"bad", "badfirst"} -> {"dblk", "dBAD"}
                    [] v = "shipped" -> {"sdloc"} [] OTHER -> {}
-PblEntries(v) == CASE v = "A" -> {"p192"} [] v = "ws" -> {"p192", "pws"} [] v = "bad" -> {"p192", "pBAD"} [] OTHER -> {}
+PblEntries(v) == CASE v = "A" -> {"p192"} [] v = "ws" -> {"p192", "pws"} [] v \in {"bad", "badfirst"} -> {"p192", "pBAD"} [] OTHER -> {}
 
 Bad == {"cBAD", "aBAD", "dBAD", "pBAD"}           \* cannot be parsed
 Blank == {"cws", "aws", "pws", "sfc00ws"}         \* parse once surrounding blanks are trimmed
